@@ -837,3 +837,75 @@ func specHexVal(b byte) byte {
 //@ ensures [C02.putinterval.array.frame] old(depth(intp)) >= 3 && isType(old(top(intp, 2)), Array) && ref(old(top(intp, 2)).(Array)) != old(ref(intp.Stack)) && isInt(old(top(intp, 1))) && isType(old(top(intp, 0)), Array) && piOK(Integer(len(old(top(intp, 2)).(Array))), asInt(old(top(intp, 1))), Integer(len(old(top(intp, 0)).(Array)))) ==> (forall j :: 0 <= j && j < len(old(top(intp, 2)).(Array)) && (j < int(asInt(old(top(intp, 1)))) || j >= int(asInt(old(top(intp, 1)))) + len(old(top(intp, 0)).(Array))) ==> old(top(intp, 2)).(Array)[j] == old(top(intp, 2).(Array)[j]))
 //@ ensures [C02.putinterval.array.range] old(depth(intp)) >= 3 && isType(old(top(intp, 2)), Array) && isInt(old(top(intp, 1))) && isType(old(top(intp, 0)), Array) && !piOK(Integer(len(old(top(intp, 2)).(Array))), asInt(old(top(intp, 1))), Integer(len(old(top(intp, 0)).(Array)))) ==> isPSErr(result, eRangecheck)
 //@ ensures [C02.putinterval.type] old(depth(intp)) >= 3 && isType(old(top(intp, 2)), Array) && isInt(old(top(intp, 1))) && asInt(old(top(intp, 1))) >= 0 && !isType(old(top(intp, 0)), Array) ==> isPSErr(result, eTypecheck)
+
+// roll (PLRM 8.2): n j roll rotates the top n elements by j positions towards
+// the top of the stack: the element at window position i moves to position
+// (i + j) mod n, with the mathematical mod also for negative j.  rollAmount is
+// that residue written with Go's truncating %.
+func rollAmount(j, n Integer) Integer {
+	return (j%n + n) % n
+}
+
+//@ define rolled(intp, base, n, jm) = forall i :: 0 <= i && i < n ==> (i + jm < n ==> intp.Stack[base+i+jm] == old(intp.Stack[base+i])) && (i + jm >= n ==> intp.Stack[base+i+jm-n] == old(intp.Stack[base+i]))
+//@ func bRoll
+//@ ensures [C02.roll.underflow] old(depth(intp)) < 2 ==> isPSErr(result, eStackunderflow) && depth(intp) == old(depth(intp))
+//@ ensures [C02.roll.type] old(depth(intp)) >= 2 && !isInt(old(top(intp, 1))) ==> isPSErr(result, eTypecheck)
+//@ ensures [C02.roll.range] old(depth(intp)) >= 2 && isInt(old(top(intp, 1))) && (asInt(old(top(intp, 1))) < 0 || asInt(old(top(intp, 1))) > Integer(old(depth(intp)) - 2)) ==> isPSErr(result, eRangecheck)
+//@ ensures [C02.roll] old(depth(intp)) >= 2 && isInt(old(top(intp, 1))) && isInt(old(top(intp, 0))) && 1 <= asInt(old(top(intp, 1))) && asInt(old(top(intp, 1))) <= Integer(old(depth(intp)) - 2) ==> result == nil && depth(intp) == old(depth(intp)) - 2 && rolled(intp, old(depth(intp)) - 2 - int(asInt(old(top(intp, 1)))), int(asInt(old(top(intp, 1)))), int(rollAmount(asInt(old(top(intp, 0))), asInt(old(top(intp, 1))))))
+//@ ensures [C02.roll.frame] old(depth(intp)) >= 2 && isInt(old(top(intp, 1))) && isInt(old(top(intp, 0))) && 0 <= asInt(old(top(intp, 1))) && asInt(old(top(intp, 1))) <= Integer(old(depth(intp)) - 2) ==> result == nil && depth(intp) == old(depth(intp)) - 2 && (forall i :: 0 <= i && i < old(depth(intp)) - 2 - int(asInt(old(top(intp, 1)))) ==> intp.Stack[i] == old(intp.Stack[i]))
+//@ ensures [C02.roll.zero] old(depth(intp)) >= 2 && isInt(old(top(intp, 1))) && isInt(old(top(intp, 0))) && asInt(old(top(intp, 1))) == 0 ==> result == nil && stackFrame(intp, 2)
+
+// Boolean / bitwise operators (PLRM 8.2: and, or, not): logical on booleans,
+// bitwise on integers, typecheck on mixed operands.
+func asBool(o Object) Boolean {
+	return o.(Boolean)
+}
+
+//@ func bAnd
+//@ ensures [C02.and.underflow] old(depth(intp)) < 2 ==> isPSErr(result, eStackunderflow) && depth(intp) == old(depth(intp))
+//@ ensures [C02.and.bool] old(depth(intp)) >= 2 && isBool(old(top(intp, 1))) && isBool(old(top(intp, 0))) ==> result == nil && depth(intp) == old(depth(intp)) - 1 && isBool(top(intp, 0)) && asBool(top(intp, 0)) == (asBool(old(top(intp, 1))) && asBool(old(top(intp, 0)))) && stackFrame(intp, 2)
+//@ ensures [C02.and.int] old(depth(intp)) >= 2 && isInt(old(top(intp, 1))) && isInt(old(top(intp, 0))) ==> result == nil && depth(intp) == old(depth(intp)) - 1 && isInt(top(intp, 0)) && asInt(top(intp, 0)) == asInt(old(top(intp, 1)))&asInt(old(top(intp, 0))) && stackFrame(intp, 2)
+//@ ensures [C02.and.mixed] old(depth(intp)) >= 2 && ((isBool(old(top(intp, 1))) && !isBool(old(top(intp, 0)))) || (isInt(old(top(intp, 1))) && !isInt(old(top(intp, 0)))) || (!isBool(old(top(intp, 1))) && !isInt(old(top(intp, 1))))) ==> isPSErr(result, eTypecheck)
+
+//@ func bOr
+//@ ensures [C02.or.underflow] old(depth(intp)) < 2 ==> isPSErr(result, eStackunderflow) && depth(intp) == old(depth(intp))
+//@ ensures [C02.or.bool] old(depth(intp)) >= 2 && isBool(old(top(intp, 1))) && isBool(old(top(intp, 0))) ==> result == nil && depth(intp) == old(depth(intp)) - 1 && isBool(top(intp, 0)) && asBool(top(intp, 0)) == (asBool(old(top(intp, 1))) || asBool(old(top(intp, 0)))) && stackFrame(intp, 2)
+//@ ensures [C02.or.int] old(depth(intp)) >= 2 && isInt(old(top(intp, 1))) && isInt(old(top(intp, 0))) ==> result == nil && depth(intp) == old(depth(intp)) - 1 && isInt(top(intp, 0)) && asInt(top(intp, 0)) == asInt(old(top(intp, 1)))|asInt(old(top(intp, 0))) && stackFrame(intp, 2)
+//@ ensures [C02.or.mixed] old(depth(intp)) >= 2 && ((isBool(old(top(intp, 1))) && !isBool(old(top(intp, 0)))) || (isInt(old(top(intp, 1))) && !isInt(old(top(intp, 0)))) || (!isBool(old(top(intp, 1))) && !isInt(old(top(intp, 1))))) ==> isPSErr(result, eTypecheck)
+
+//@ func bNot
+//@ ensures [C02.not.underflow] old(depth(intp)) < 1 ==> isPSErr(result, eStackunderflow) && depth(intp) == old(depth(intp))
+//@ ensures [C02.not.bool] old(depth(intp)) >= 1 && isBool(old(top(intp, 0))) ==> result == nil && depth(intp) == old(depth(intp)) && isBool(top(intp, 0)) && asBool(top(intp, 0)) == !asBool(old(top(intp, 0))) && stackFrame(intp, 1)
+//@ ensures [C02.not.int] old(depth(intp)) >= 1 && isInt(old(top(intp, 0))) ==> result == nil && depth(intp) == old(depth(intp)) && isInt(top(intp, 0)) && asInt(top(intp, 0)) == -asInt(old(top(intp, 0))) - 1 && stackFrame(intp, 1)
+//@ ensures [C02.not.type] old(depth(intp)) >= 1 && !isBool(old(top(intp, 0))) && !isInt(old(top(intp, 0))) ==> isPSErr(result, eTypecheck)
+
+// Dictionary operators (PLRM 8.2: known, def, begin, end, load).  def writes
+// into the TOPMOST dictionary of the dictionary stack; load returns the value
+// from the topmost dictionary that has the key.
+//@ define curDict(intp) = intp.DictStack[len(intp.DictStack)-1]
+//@ func bKnown
+//@ ensures [C02.known.underflow] old(depth(intp)) < 2 ==> isPSErr(result, eStackunderflow) && depth(intp) == old(depth(intp))
+//@ ensures [C02.known] old(depth(intp)) >= 2 && isType(old(top(intp, 1)), Dict) && isType(old(top(intp, 0)), Name) ==> result == nil && depth(intp) == old(depth(intp)) - 1 && isBool(top(intp, 0)) && bool(asBool(top(intp, 0))) == old(has(top(intp, 1).(Dict), top(intp, 0).(Name))) && stackFrame(intp, 2)
+//@ ensures [C02.known.type] old(depth(intp)) >= 2 && (!isType(old(top(intp, 1)), Dict) || !isType(old(top(intp, 0)), Name)) ==> isPSErr(result, eTypecheck)
+
+//@ func bDef
+//@ ensures [C02.def.underflow] old(depth(intp)) < 2 ==> isPSErr(result, eStackunderflow) && depth(intp) == old(depth(intp))
+//@ ensures [C02.def.type] old(depth(intp)) >= 2 && !isType(old(top(intp, 1)), Name) ==> isPSErr(result, eTypecheck)
+//@ ensures [C02.def] old(depth(intp)) >= 2 && isType(old(top(intp, 1)), Name) ==> result == nil && depth(intp) == old(depth(intp)) - 2 && stackFrame(intp, 2) && len(intp.DictStack) == old(len(intp.DictStack)) && curDict(intp) == old(curDict(intp)) && has(curDict(intp), old(top(intp, 1)).(Name)) && curDict(intp)[old(top(intp, 1)).(Name)] == old(top(intp, 0))
+//@ ensures [C02.def.frame] old(depth(intp)) >= 2 && isType(old(top(intp, 1)), Name) ==> (forall nm Name :: nm != old(top(intp, 1)).(Name) ==> has(curDict(intp), nm) == old(has(curDict(intp), nm)) && curDict(intp)[nm] == old(curDict(intp)[nm]))
+
+//@ func bBegin
+//@ ensures [C02.begin.underflow] old(depth(intp)) < 1 ==> isPSErr(result, eStackunderflow) && depth(intp) == old(depth(intp))
+//@ ensures [C02.begin.overflow] old(depth(intp)) >= 1 && old(len(intp.DictStack)) >= maxDictStackDepth ==> isPSErr(result, eDictstackoverflow) && len(intp.DictStack) == old(len(intp.DictStack))
+//@ ensures [C02.begin.type] old(depth(intp)) >= 1 && old(len(intp.DictStack)) < maxDictStackDepth && !isType(old(top(intp, 0)), Dict) ==> isPSErr(result, eTypecheck) && len(intp.DictStack) == old(len(intp.DictStack))
+//@ ensures [C02.begin] old(depth(intp)) >= 1 && old(len(intp.DictStack)) < maxDictStackDepth && isType(old(top(intp, 0)), Dict) ==> result == nil && depth(intp) == old(depth(intp)) - 1 && stackFrame(intp, 1) && len(intp.DictStack) == old(len(intp.DictStack)) + 1 && curDict(intp) == old(top(intp, 0)).(Dict) && (forall i :: 0 <= i && i < old(len(intp.DictStack)) ==> intp.DictStack[i] == old(intp.DictStack[i]))
+
+//@ func bEnd
+//@ ensures [C02.end.underflow] old(len(intp.DictStack)) <= 2 ==> isPSErr(result, eDictstackunderflow) && len(intp.DictStack) == old(len(intp.DictStack))
+//@ ensures [C02.end] old(len(intp.DictStack)) > 2 ==> result == nil && len(intp.DictStack) == old(len(intp.DictStack)) - 1 && depth(intp) == old(depth(intp)) && (forall i :: 0 <= i && i < len(intp.DictStack) ==> intp.DictStack[i] == old(intp.DictStack[i]))
+
+// load: the binding in the topmost dictionary that contains the key.
+//@ func (*Interpreter).load
+//@ ensures [C02.load.found] result1 == nil && isType(key, Name) ==> (exists j :: 0 <= j && j < len(intp.DictStack) && has(intp.DictStack[j], key.(Name)) && result0 == intp.DictStack[j][key.(Name)] && (forall k :: j < k && k < len(intp.DictStack) ==> !has(intp.DictStack[k], key.(Name))))
+//@ ensures [C02.load.undefined] isType(key, Name) && (forall k :: 0 <= k && k < len(intp.DictStack) ==> !has(intp.DictStack[k], key.(Name))) ==> isPSErr(result1, eUndefined)
+//@ loop 1 invariant [C02.load] -1 <= j && j < len(intp.DictStack) && (forall k :: j < k && k < len(intp.DictStack) ==> !has(intp.DictStack[k], name))
